@@ -260,7 +260,7 @@ def _replay(rec):
 
 
 def deductive(ctx):
-    """engine D: copyfile_workflow passes EVERY output field through copy_nested_files with the workflow directory as
+    """engine D: whenever copyfile_workflow passes an output field through copy_nested_files it is with the workflow directory as
     destination (mode hardlink_or_copy) and stores what that call returns"""
     from contracts import copyfile_workflow as CW
     from pyvc.verify import verify, summarize
